@@ -110,7 +110,12 @@ def build(case):
         cfg["dry_run"] = True
     if case.get("cont"):
         cfg["continue_after_failed"] = True
-    return {"features": [feat], "cfg": cfg}
+    prog = {"features": [feat], "cfg": cfg}
+    if case.get("hookfault") and outs:
+        # the before_step / after_step hook of one step raises: that step does not pass either
+        hook, i, exc = case["hookfault"]
+        prog["hook_faults_named"] = [[hook, "q%d" % (int(i) % len(outs)), exc]]
+    return prog
 
 
 def check(case):
@@ -131,6 +136,13 @@ def check(case):
         for f in ("wip", "dry", "async", "cont", "bg_placeholders"):
             if case.get(f):
                 res.label(f)
+        if case.get("hookfault") and outs and not case.get("dry"):
+            hook, i, _exc = case["hookfault"]
+            i = int(i) % len(outs)
+            if (hook, "q%d" % i) in set((h, ident) for h, ident, _open in ref.hooks):
+                res.label("step-hook-raises:" + hook)
+                if outs[i] == "pass" and i + 1 < len(outs):
+                    res.label("step-hook-raises:passing-step-with-followers")
         if outs:
             res.label("first:" + outs[0], "last:" + outs[-1])
             for o in outs[1:-1]:
@@ -205,6 +217,9 @@ def random_seq(draw, max_len=12):
             "bg_placeholders": draw(st.booleans())}
     # some conversion errors come from converters that raise KeyError instead of ValueError
     case["outs"] = [("convert_key" if (o == "convert" and draw(st.booleans())) else o) for o in case["outs"]]
+    if draw(st.integers(0, 3)) == 0:
+        case["hookfault"] = [draw(st.sampled_from(["before_step", "after_step"])), draw(st.integers(0, n - 1)),
+                             draw(st.sampled_from(["Exception", "AssertionError", "Exception0"]))]
     return case
 
 
@@ -247,7 +262,8 @@ def explore(rec):
 
 def required_labels(tier):
     req = ["depth:0", "depth:1", "depth:2", "row", "plain", "wip", "dry", "async", "cont", "rerun", "program",
-           "bg_placeholders", "first:convert_key", "one-text-several-step-types"]
+           "bg_placeholders", "first:convert_key", "one-text-several-step-types", "step-hook-raises:before_step",
+           "step-hook-raises:after_step", "step-hook-raises:passing-step-with-followers"]
     for o in OUTCOMES:
         req += ["first:" + o, "middle:" + o, "last:" + o]
     return req
@@ -257,3 +273,4 @@ KNOWN_PREDICATES = {}
 
 
 RULE = RULE + " " + ('Programs also contain step texts that are bound per step type (one text: passing @given, failing @then, no @when definition) and converters raising KeyError.')
+RULE = RULE + " " + ('A quarter of the random sequences let the before_step or after_step hook of one step raise (that step does not pass either: nothing after it is called).')
